@@ -130,5 +130,9 @@ def run(ctx):
     # racing registrations is forced on the real runtime; shutdown() and accept() must both
     # return normally on every schedule
     regkernel.run_stopping(ctx, only=regkernel.C12_FORMULAS)
+    # EndAfterShutdownReturned (accept() ends only after shutdown() has returned) and the
+    # registration invariants of the stopping kernel for ANY number of submitters (TLAPS)
+    from .. import tlaps
+    ctx.extra["tlaps_proofs"] = [tlaps.prove("StoppingProofs")]
     ctx.extra["rule"] = "shapes = how runner 1 ends (shutdown from a thread / SIGINT / failing payload) x payload population at that time (none, sleeping coroutines with cleanup, blocked thread, payloads adopted concurrently) with a concurrent second accept placed by TLC anywhere in the behaviour, and always a restart attempt with a second runner afterwards; targeted: shutdown racing the service loop's first instant, several rejected accepts"
     ctx.assumptions = RT_ASSUMPTIONS + ["finitely many adoptions after shutdown() begins", "each history runs in its own process (the accept guard is process-wide); SIGINT is delivered to the main thread, which is the one inside accept()"]
